@@ -1,9 +1,10 @@
 (* C31: executable checker for the cases written by
    harness/go/data/transactions/logic/zz_verif_c31_test.go.  No proofs.
 
-   (f v mode lsv minv argsok #prog evcls pass nsteps maxdepth maxlen minrem (final_h final_top) steps)
+   (f v mode lsv minv argsok #prog chk ckbudget evcls pass nsteps maxdepth maxlen minrem (final_h final_top) steps)
      one evaluation of a random / mutated byte string through EvalSignatureFull / EvalContract:
-     evcls = class of the final error (0 = none), pass = the returned verdict, nsteps = number of
+     chk = class of the real CheckSignature / CheckContract result on the same program (ckbudget =
+     the budget it saw), evcls = class of the final error (0 = none), pass = the returned verdict, nsteps = number of
      instructions started, maxdepth / maxlen / minrem = extreme stack depth, byte-string length
      and remaining budget seen by the Tracer over the WHOLE run, final stack summary, and the
      first steps of the run, each
@@ -74,12 +75,12 @@ Definition final_class (h : nat) (top : list sval) : N * bool :=
   | _, _ => (21%N, false)
   end.
 
-Definition check_f (v mode lsv minv : N) (argsok : bool) (prog : list N) (evcls : N) (pass : bool)
+Definition check_f (v mode lsv minv : N) (argsok : bool) (prog : list N) (chk : N) (ckb : Z) (evcls : N) (pass : bool)
            (nsteps : nat) (maxdepth : nat) (maxlen : N) (minrem : Z) (fh : nat) (ftop : list sval)
            (steps : list ostep) : term :=
   (* ---- the property on the implementation's observation *)
   let spec_ok :=
-      negb (N.eqb evcls 22)                                   (* no internal crash *)
+      negb (N.eqb evcls 22) && negb (N.eqb chk 22)            (* no internal crash, in eval or check *)
       && (0 <=? minrem)%Z                                     (* never exceeds its cost budget *)
       && Nat.leb maxdepth max_depth_nat                       (* stack depth *)
       && N.leb maxlen max_string_size                         (* byte-string length *)
@@ -108,22 +109,24 @@ Definition check_f (v mode lsv minv : N) (argsok : bool) (prog : list N) (evcls 
       if all_recorded && ended_normally then
         let '(c, p) := final_class fh ftop in N.eqb evcls c && Bool.eqb pass p
       else true in
-  let corr := corr_steps && corr_pre && corr_final in
+  (* the static check is a total function of the byte string: same class as the model's *)
+  let corr_check := N.eqb (res_class (frame_check lsv mode ckb minv false prog)) chk in
+  let corr := corr_steps && corr_pre && corr_final && corr_check in
   verdict spec_ok corr (negb (Nat.eqb nsteps 0%nat))
-          (TL [tb corr_steps; tb corr_pre; tb corr_final]).
+          (TL [tb corr_steps; tb corr_pre; tb corr_final; tb corr_check]).
 
 Definition check (t : term) : term :=
   match t with
-  | TL [TS "f"; tv; tmode; tlsv; tminv; targs; TB prog; tev; tpass; tns; tmd; tml; TZ minrem;
+  | TL [TS "f"; tv; tmode; tlsv; tminv; targs; TB prog; tchk; TZ ckb; tev; tpass; tns; tmd; tml; TZ minrem;
         TL [tfh; tftop]; TL tsteps] =>
-      match as_N tv, as_N tmode, as_N tlsv, as_N tminv, as_bool targs, as_N tev, as_bool tpass with
-      | Some v, Some mode, Some lsv, Some minv, Some argsok, Some evcls, Some pass =>
+      match as_N tv, as_N tmode, as_N tlsv, as_N tminv, as_bool targs, as_N tev, as_bool tpass, as_N tchk with
+      | Some v, Some mode, Some lsv, Some minv, Some argsok, Some evcls, Some pass, Some chk =>
           match parse_nat tns, parse_nat tmd, as_N tml, parse_nat tfh, parse_svals tftop, map_opt parse_ostep tsteps with
           | Some ns, Some md, Some ml, Some fh, Some ftop, Some steps =>
-              check_f v mode lsv minv argsok prog evcls pass ns md ml minrem fh ftop steps
+              check_f v mode lsv minv argsok prog chk ckb evcls pass ns md ml minrem fh ftop steps
           | _, _, _, _, _, _ => v_parse
           end
-      | _, _, _, _, _, _, _ => v_parse
+      | _, _, _, _, _, _, _, _ => v_parse
       end
   | _ => v_parse
   end.
